@@ -451,3 +451,65 @@ func VH_C02_FetchV2Wide(version, segments int) {
 	vhAssert(no == first+201, "wide-position-moves-past-the-batch")
 	vhReach("c02-fetch-v2-wide")
 }
+
+// H1c: a fetch response truncated by the broker at the byte limit: one complete v2 batch followed by a second batch
+// cut at any byte (header included), the message-set size announcing exactly what is there. The records delivered
+// are a prefix of the stored ones (every record of the complete batch included), the position afterwards is past
+// the last record delivered and never past a stored record that was not delivered - also when the deadline of the
+// fetch has passed by the time the cut is reached (late=1: the batch then ends with a time-out instead of EOF).
+func VH_C02_FetchV2Truncated(version, late, shape1 int) {
+	vhConcreteClock(true)
+	vhLogV2FirstShape = shape1
+	first := vhInt64("log_fragment_start")
+	vhAssume(vhAll(first >= 0, first < 1<<40))
+	o := first
+	wire1, stored1, next1, _ := vhLogV2(1, first)
+	vhLogV2FirstShape = -1
+	wire2, stored2, next2, _ := vhLogV2(1, next1)
+	cut := vhChoose("bytes_of_the_second_batch_delivered", len(wire2))
+	wire := append(append([]byte{}, wire1...), wire2[:cut]...)
+	stored := append(append([]vhStored{}, stored1...), stored2...)
+	f1 := vhApiVersionsFrame(1, []vhApiRange{{int16(fetch), 0, int16(version)}, {int16(listOffsets), 0, 1}})
+	f2 := vhFetchResponse(2, version, 0, "t", 0, 0, next2+10, wire)
+	fc := &vhFakeConn{data: append(append([]byte{}, f1...), f2...)}
+	c := NewConnWith(fc, ConnConfig{Topic: "t", Partition: 0, ClientID: "vh"})
+	_, serr := c.Seek(o, SeekAbsolute|SeekDontCheck)
+	vhAssert(serr == nil, "seek-ok")
+	c.SetReadDeadline(time.Now().Add(200 * time.Millisecond))
+	b := c.ReadBatchWith(ReadBatchConfig{MinBytes: 1, MaxBytes: 100000})
+	var got []Message
+	var lastErr error
+	for i := 0; i < len(stored)+2; i++ {
+		m, err := b.ReadMessage()
+		if err != nil {
+			lastErr = err
+			break
+		}
+		got = append(got, m)
+		if late == 1 && len(got) == len(stored1) {
+			time.Sleep(400 * time.Millisecond) // the consumer is slow: the fetch deadline passes
+		}
+	}
+	b.Close()
+	vhAssert(lastErr != nil, "batch-ends")
+	vhAssert(len(got) >= len(stored1), "every-record-of-the-complete-batch-is-delivered")
+	vhAssert(len(got) <= len(stored), "nothing-but-stored-records")
+	for i := range got {
+		if i >= len(stored) {
+			break
+		}
+		vhAssert(got[i].Offset == stored[i].offset, "offsets-in-order-each-once")
+		vhAssert(vhAll(vhBytesEq(got[i].Key, stored[i].key), vhBytesEq(got[i].Value, stored[i].value)), "stored-key-and-value")
+	}
+	no, _ := c.Offset()
+	if len(got) > 0 {
+		vhAssert(no > got[len(got)-1].Offset, "position-moves-past-the-last-delivered-record")
+	}
+	vhAssert(no >= o, "position-never-moves-backwards")
+	if len(got) < len(stored) {
+		vhAssert(no <= stored[len(got)].offset, "position-does-not-skip-a-stored-record-that-was-not-delivered")
+	} else {
+		vhAssert(no <= next2, "position-does-not-skip-stored-records-beyond-the-fragment")
+	}
+	vhReach("c02-fetch-v2-truncated")
+}
